@@ -515,6 +515,7 @@ impl<'r, 'a> St<'r, 'a> {
                 crate::pay::PAY_DEBUG_MODE.with(|m| m.set(0));
             }
             NonAcqOp::Accessors => accessors(node),
+            NonAcqOp::Construct if matches!(world.spec.targets[t], TSpec::Own { .. }) => {}
             NonAcqOp::Construct => {
                 let spec_t = world.spec.targets[t].clone();
                 match world.build(&spec_t, s) {
@@ -1004,7 +1005,8 @@ impl<'r, 'a> Th<'r, 'a> {
         let spec_t = &world.spec.targets[acq.target];
         let private_node;
         let private_flat;
-        let (node, flat): (&Node, &[FlatLeaf]) = if acq.rebuild {
+        let rebuildable = !matches!(spec_t, TSpec::Own { .. });
+        let (node, flat): (&Node, &[FlatLeaf]) = if acq.rebuild && rebuildable {
             match world.build(spec_t, s) {
                 Ok(mut n) => {
                     if acq.mutate {
@@ -1789,7 +1791,14 @@ pub fn run_scenario(scn: &Scenario) -> RunResult {
     // raw faults left holds behind that nobody can release)
     {
         let mut g = sched.lock();
-        let forget = scn.program.threads.iter().flatten().any(|s| matches!(s, Step::Acquire(a) if a.release == Release::Forget));
+        fn forgets(s: &Step) -> bool {
+            match s {
+                Step::Acquire(a) => a.release == Release::Forget,
+                Step::InUnwind(inner) => forgets(inner),
+                _ => false,
+            }
+        }
+        let forget = scn.program.threads.iter().flatten().any(forgets);
         if !g.abort && !forget {
             let left: Vec<(usize, Option<usize>, Vec<usize>)> =
                 g.locks.iter().enumerate().filter(|(_, l)| !l.faulted && (l.excl.is_some() || !l.shared.is_empty())).map(|(i, l)| (i, l.excl, l.shared.clone())).collect();
